@@ -11,6 +11,9 @@ from .instructions import Imm32Token, Imm8Token
 from .instructions import RmMem, RmMemDisp, RmReg32, RmReg64, RmAbs, MovAdr
 from .instructions import Ja, Jae, Je, Jne, Jp, Js, NearJump
 from .instructions import SubImm, AddImm
+from .instructions import pattern_i8toi32, pattern_u8toi32
+from .instructions import pattern_i16_to_i32, pattern_u16toi32
+from .instructions import pattern_i32toi8, pattern_i32toi16
 from .registers import XmmRegisterSingle, XmmRegisterDouble
 from .registers import Register64, Register32, rsp, eax, rax
 from ..generic_instructions import ArtificialInstruction, RegisterUseDef
@@ -627,6 +630,75 @@ def pattern_u32tof64(context, tree, c0):
 
     context.emit(Cvtsi2sd(dst, RmReg64(rax)))
     return dst
+
+
+# I8 and I16, by way of 32 bits:
+@sse1_isa.pattern("reg8", "F32TOI8(rmf32)", size=10, cycles=3, energy=3)
+@sse1_isa.pattern("reg8", "F32TOU8(rmf32)", size=10, cycles=3, energy=3)
+def pattern_f32toi8(context, tree, c0):
+    return pattern_i32toi8(context, tree, pattern_f32toi32(context, tree, c0))
+
+
+@sse2_isa.pattern("reg8", "F64TOI8(rmf64)", size=10, cycles=4, energy=4)
+@sse2_isa.pattern("reg8", "F64TOU8(rmf64)", size=10, cycles=4, energy=4)
+def pattern_f64toi8(context, tree, c0):
+    return pattern_i32toi8(context, tree, pattern_f64toi32(context, tree, c0))
+
+
+@sse1_isa.pattern("reg16", "F32TOI16(rmf32)", size=10, cycles=3, energy=3)
+@sse1_isa.pattern("reg16", "F32TOU16(rmf32)", size=10, cycles=3, energy=3)
+def pattern_f32toi16(context, tree, c0):
+    return pattern_i32toi16(context, tree, pattern_f32toi32(context, tree, c0))
+
+
+@sse2_isa.pattern("reg16", "F64TOI16(rmf64)", size=10, cycles=4, energy=4)
+@sse2_isa.pattern("reg16", "F64TOU16(rmf64)", size=10, cycles=4, energy=4)
+def pattern_f64toi16(context, tree, c0):
+    return pattern_i32toi16(context, tree, pattern_f64toi32(context, tree, c0))
+
+
+@sse1_isa.pattern("regfp32", "I8TOF32(reg8)", size=10, cycles=3, energy=3)
+def pattern_i8tof32(context, tree, c0):
+    return pattern_i32tof32(context, tree, pattern_i8toi32(context, tree, c0))
+
+
+@sse1_isa.pattern("regfp32", "U8TOF32(reg8)", size=10, cycles=3, energy=3)
+def pattern_u8tof32(context, tree, c0):
+    return pattern_i32tof32(context, tree, pattern_u8toi32(context, tree, c0))
+
+
+@sse1_isa.pattern("regfp32", "I16TOF32(reg16)", size=10, cycles=3, energy=3)
+def pattern_i16tof32(context, tree, c0):
+    return pattern_i32tof32(
+        context, tree, pattern_i16_to_i32(context, tree, c0)
+    )
+
+
+@sse1_isa.pattern("regfp32", "U16TOF32(reg16)", size=10, cycles=3, energy=3)
+def pattern_u16tof32(context, tree, c0):
+    return pattern_i32tof32(context, tree, pattern_u16toi32(context, tree, c0))
+
+
+@sse2_isa.pattern("regfp64", "I8TOF64(reg8)", size=10, cycles=4, energy=4)
+def pattern_i8tof64(context, tree, c0):
+    return pattern_i32tof64(context, tree, pattern_i8toi32(context, tree, c0))
+
+
+@sse2_isa.pattern("regfp64", "U8TOF64(reg8)", size=10, cycles=4, energy=4)
+def pattern_u8tof64(context, tree, c0):
+    return pattern_i32tof64(context, tree, pattern_u8toi32(context, tree, c0))
+
+
+@sse2_isa.pattern("regfp64", "I16TOF64(reg16)", size=10, cycles=4, energy=4)
+def pattern_i16tof64(context, tree, c0):
+    return pattern_i32tof64(
+        context, tree, pattern_i16_to_i32(context, tree, c0)
+    )
+
+
+@sse2_isa.pattern("regfp64", "U16TOF64(reg16)", size=10, cycles=4, energy=4)
+def pattern_u16tof64(context, tree, c0):
+    return pattern_i32tof64(context, tree, pattern_u16toi32(context, tree, c0))
 
 
 @sse1_isa.pattern("regfp32", "CONSTF32", size=8, cycles=6, energy=2)
